@@ -4,6 +4,8 @@ import Q1t.Gen.LatexTemplates
 import Q1t.Proofs.LatexBasic
 import Q1t.Proofs.LatexShape
 import Q1t.Proofs.LatexInv
+import Q1t.Proofs.LatexOnce
+import Q1t.Proofs.LatexExpect
 /-!
 # C13 — the LaTeX (qcircuit) export is a well-formed grid depicting the circuit; undrawable operations are errors
 
@@ -12,7 +14,7 @@ Property theorems only.  Statements are about the executable model `Q1t.Latex` o
 correspondence run of `tools/check.py C13`), and about the grid of symbols `Q1t.Latex.grid` that the
 model's `code` prints (that the exported TEXT reads back as this grid is checked at run time by the
 reader `Spec.QcGrid.readDoc` on the implementation's output, not proved).
-Proofs are in `Q1t/Proofs/Latex{Basic,Shape,Conn,Inv}.lean`.
+Proofs are in `Q1t/Proofs/Latex{Basic,Shape,Conn,Inv,Trace,Stages,Once,Expect}.lean`.
 -/
 namespace Q1t.Props.C13
 open Q1t.Latex Q1t.Spec.QcGrid Q1t.Proofs.Latex
@@ -72,6 +74,110 @@ theorem undrawable_error_value (nq : Nat) (pre : List Op) (op : Op) (post : List
     opsLatex nq (pre ++ op :: post) s = .err .notImplemented :=
   peek_after_ok_prefix nq pre op post s s1 hpre hp
 
+/-! ## Provenance: every operation exactly once, wires in program order, clear connector spans
+
+The model's cells carry a ghost provenance (`Cell.prov` = index of the circuit operation that wrote the
+cell; erased by `code`, invisible in the text). `Has s col r cell` = column `col` (from the left), row
+`r` of the matrix holds the explicit cell `cell`. By `printed_iff_drawn` below the explicit cells are
+exactly the printed symbols that are not bare wires, so the statements are statements about the grid.
+
+`circStages c` is the REFERENCE DRAWING of the circuit: for every operation, in program order, the list
+of its stages, a stage being the symbols (row, symbol) that belong together in one column: a 1-qubit
+box, X, Z, Swap, a controlled nesting C<…> of those with its control dots, an explicit wire for `I`, a
+measurement with its classical end, a reset, one barrier symbol per run of qubits, a conditional gate
+with its classical control dots, `\cds` between the two copies of a loop body; Kron / Composite / Loop
+contribute the stages of their parts in order.
+
+All for circuits whose operations satisfy `opOk` (the class of `connectors_in_grid_on_partner_partial`).
+FULL STATEMENTS (for all drawable circuits) are false on the pinned code: see the negative witnesses
+(`neg_conditional_composite_overwrites`: an operation's symbol is lost; `neg_barrier_column_reused`: a
+later operation is drawn left of / under an earlier barrier; `neg_controlled_kron_unconnected`).
+What is NOT proved here: that `circStages` agrees with the independent reader's expectation
+`Spec.QcGrid.opItems` for Kron / Composite / Loop (proved for one-column operations only:
+`stage_is_expected_partial`); multi-qubit block gates (outside `opOk`). -/
+
+/-- **each_op_once** (partial: `opOk`) — the final matrix is EXACTLY the reference stages of the
+operations, each stage laid out in ONE column of the grid, with the provenance of its operation:
+there is a list `L` of placed stages whose (operation, symbols) sequence is `circStages c`, columns and
+operations are non-decreasing along `L`, two stages in the same column use different rows, the rows of
+a stage are distinct, and a cell `(col, r)` holds `cell` iff some placed stage of operation
+`cell.prov` in column `col` contains `(r, cell.sym)`. Hence every symbol of every stage of every
+operation appears exactly once, nothing else is drawn, and nothing drawn is overwritten. -/
+theorem each_op_once_partial (c : Circ) (s : St) (hop : ∀ op ∈ c.ops, opOk op = true)
+    (h : exportSt c = .ok s) :
+    ∃ L : List Stg,
+      L.map (fun g => (g.prov, g.ws)) = circStages c ∧
+      (L.Pairwise fun a b => (a.col ≤ b.col ∧ a.prov ≤ b.prov) ∧
+        (a.col = b.col → ∀ p ∈ a.ws, ∀ q ∈ b.ws, p.1 ≠ q.1)) ∧
+      (∀ g ∈ L, g.col < s.rcols.length ∧ (g.ws.map (·.1)).Nodup) ∧
+      ∀ col r cell, Has s col r cell ↔ ∃ g ∈ L, g.col = col ∧ g.prov = cell.prov ∧ (r, cell.sym) ∈ g.ws := by
+  obtain ⟨L, d⟩ := export_drawn hop h
+  exact ⟨L, d.stages, d.sorted, fun g hg => ⟨d.inGrid g hg, d.nodup g hg⟩, d.cells⟩
+
+/-- **wire_order** (partial: `opOk`) — operations appear left to right in program order: a symbol of a
+later operation is never in an earlier column than a symbol of an earlier operation, and on one and
+the same wire it is in a strictly later column. (About the symbols an operation WRITES; the wires a barrier merely covers are not
+reserved by the pinned code — known finding `span:barrier`, `neg_barrier_column_reused`.) -/
+theorem wire_order_partial (c : Circ) (s : St) (hop : ∀ op ∈ c.ops, opOk op = true)
+    (h : exportSt c = .ok s) (c1 c2 r1 r2 : Nat) (x1 x2 : Cell)
+    (h1 : Has s c1 r1 x1) (h2 : Has s c2 r2 x2) (hlt : x1.prov < x2.prov) :
+    c1 ≤ c2 ∧ (r1 = r2 → c1 < c2) := by
+  obtain ⟨L, d⟩ := export_drawn hop h
+  exact drawn_order d h1 h2 hlt
+
+/-- … equivalently: provenance is non-decreasing from left to right over the whole grid. -/
+theorem column_order_partial (c : Circ) (s : St) (hop : ∀ op ∈ c.ops, opOk op = true)
+    (h : exportSt c = .ok s) (c1 c2 r1 r2 : Nat) (x1 x2 : Cell)
+    (h1 : Has s c1 r1 x1) (h2 : Has s c2 r2 x2) (hlt : c1 < c2) : x1.prov ≤ x2.prov := by
+  obtain ⟨L, d⟩ := export_drawn hop h
+  exact drawn_column_order d h1 h2 hlt
+
+/-- **connector_span_clear** (partial: `opOk`) — every line of every cell ends, inside its column, on
+a partner symbol drawn by the SAME operation, and every explicit cell strictly between the two ends of
+the line belongs to that operation too: no symbol of another operation between the ends of a connector.
+(Maintained by range reservation: invariant `Span` = "a field that is not in use is empty and lies
+under no connector".) -/
+theorem connector_span_clear_partial (c : Circ) (s : St) (hop : ∀ op ∈ c.ops, opOk op = true)
+    (h : exportSt c = .ok s) (col r : Nat) (x : Cell) (hx : Has s col r x) (ln : Int × Nat)
+    (hln : ln ∈ x.sym.lines) :
+    ∃ (t : Nat) (y : Cell), (r : Int) + ln.1 = (t : Int) ∧ Has s col t y ∧
+      Sym.partnerOk ln.2 y.sym = true ∧ y.prov = x.prov ∧
+      ∀ (r' : Nat) (z : Cell), Between r t r' → Has s col r' z → z.prov = x.prov := by
+  have hsp := export_span hop h
+  obtain ⟨cl, hmem, hc, hr⟩ := has_col hx
+  obtain ⟨t, y, ht, hy, hp, hpr⟩ := hsp.partner cl hmem r x hr ln hln
+  refine ⟨t, y, ht, ⟨cl, hc, hy⟩, hp, hpr, ?_⟩
+  intro r' z hb hz
+  obtain ⟨cl', _, hc', hz'⟩ := has_col hz
+  rw [hc] at hc'; injection hc' with hc'; subst hc'
+  exact hsp.all cl hmem r x hr ln hln t ht r' z hb hz'
+
+/-- The span invariant for any operation history (not only from the empty state). -/
+theorem span_invariant (s s' : St) (L : List Stg) (hi : Inv s) (hsp : Span s) (t : Trace s s' L) :
+    Span s' ∧ Inv s' :=
+  ⟨trace_span hi hsp t, trace_inv hi t⟩
+
+/-- The explicit cells of the matrix are exactly the printed symbols that are not bare wires (for
+EVERY circuit): the provenance statements above are statements about the printed grid. -/
+theorem printed_iff_drawn (c : Circ) (s : St) (g : Grid) (h : exportSt c = .ok s) (hg : grid s = some g)
+    (col r : Nat) (y : Sym) (hy : y.isWire = false) :
+    (g.col col)[r]? = some y ↔ ∃ cell, Has s col r cell ∧ cell.sym = y := by
+  have hs := (exportSt_shape h).2.2
+  constructor
+  · intro hc; exact has_of_grid hs hg hc hy
+  · rintro ⟨cell, hc, rfl⟩; exact grid_of_has hs hg hc
+
+/-- **stage_is_expected** (partial: one-column gates X Z Swap 1-qubit boxes and their controlled
+nestings at a good placement, measure, reset) — the reference stage used above is an acceptable drawing
+of exactly the marks the INDEPENDENT reader `Spec.QcGrid.opItems` demands of the operation: the
+operation has one stage item; every symbol of the stage sits on the wire of a mark that `accepts` it,
+and every mark has its symbol. (Not proved for Kron / Composite / Loop, conditional gates, measure_all,
+reset_all, barrier: there the agreement of `opStages` with `opItems` is evaluated by (B) only.) -/
+theorem stage_is_expected_partial (nq : Nat) (op : Op) (h : oneColumn op = true) :
+    ∃ marks covers conn ws, opItems nq op = [.stage marks covers conn] ∧ opStages nq op = [ws] ∧
+      StageMatches ws marks :=
+  stage_is_expected nq op h
+
 /-! ## Tie to the source: templates and the gate table are re-extracted on every run -/
 
 /-- The string literals / format templates of `src/export/latex.rs` are the ones the model's
@@ -107,6 +213,30 @@ def sample : Circ := ⟨3, 2, [.gate (.box "H" 1) [0], .gate ccxGate [0, 2, 1], 
   .gate (.loop 3 (.comp "b" 1 (.cons .z [0] .nil))) [2], .measure 1 0 .X, .barrier [0, 1], .reset 2, .cond [1, 0] 2 ccxGate [2, 0, 1], .resetAll, .measureAll [1, 0, 1] .Z]⟩
 
 example : (∀ op ∈ sample.ops, opOk op = true) ∧ (circuitLatex sample matches .ok _) := by decide
+
+/-- The reference drawing of a small circuit, concretely: (operation, stage symbols). -/
+example : circStages ⟨2, 1, [.gate (.box "H" 1) [0], .gate cxGate [0, 1], .gate (.kron .i .z) [1, 0], .measure 1 0 .Z]⟩ =
+    [(0, [(0, .gate "H" none)]), (1, [(0, .ctrl 1), (1, .targ)]), (2, [(1, .qw)]), (2, [(0, .gate "Z" none)]),
+     (3, [(1, .meter none), (2, .cwx (-1))])] := by decide
+
+/-- The provenance theorems are not vacuous and say what they should on `sample`: all 11 operations
+are inside the class, the export succeeds, the reference drawing has 16 stages, and e.g. the loop
+(operation 4) contributes Z, `\\cds`, Z. -/
+example : (circStages sample).length = 16 ∧
+    (circStages sample).filter (·.1 = 4) =
+      [(4, [(2, .gate "Z" none)]), (4, [(2, .cds 0 "\\cdots")]), (4, [(2, .gate "Z" none)])] := by decide
+
+/-- … and the cells of provenance 8 (the conditional Toffoli) in the final matrix: one column, five rows,
+exactly the symbols of its reference stage. -/
+example : (exportSt sample >>== fun s => .ok (s.rcols.reverse.zipIdx.flatMap fun (p : Column × Nat) =>
+      p.1.zipIdx.filterMap fun (q : Option Cell × Nat) =>
+        q.1.bind fun x => if x.prov = 8 then some (p.2, q.2, x.sym) else none)) =
+    .ok [(10, 0, .ctrl 1), (10, 1, .targ), (10, 2, .ctrl (-1)), (10, 3, .cctrl (-1)), (10, 4, .cctrlo (-1))] ∧
+    (circStages sample).filter (·.1 = 8) =
+      [(8, [(2, .ctrl (-1)), (0, .ctrl 1), (1, .targ), (3, .cctrl (-1)), (4, .cctrlo (-1))])] := by decide
+
+/-- One-column operations of `sample` for which `stage_is_expected_partial` applies. -/
+example : (sample.ops.filter oneColumn).length = 5 := by decide
 
 /-! ## Negative witnesses: the full property fails on the pinned code -/
 
